@@ -80,6 +80,8 @@ structure BConn where
   deqHand : Bool := false         -- the dequeuer holds one token and waits for a message
   running : Bool := false         -- dequeuer and acker were started
   closedSeen : Bool := false      -- the `closed` observation was consumed
+  stalled : Bool := false         -- the connection's goroutines are held up (cannot finish dying)
+  zombie : Bool := false          -- closed, but `cleanup` has not run yet
   deriving Repr
 
 structure BState where
@@ -264,6 +266,18 @@ def lastDequeue (s : BState) (c : ConnId) (x : BConn) : List BState :=
       | (g, _) :: _ => (b.tempQ.takeWhile (·.1 = g)).map (fun e => take { b with tempQ := b.tempQ.erase e } e.2)
     s :: (fromStored ++ fromTemp)
 
+/-- `cleanup`: the will is published if the client had been accepted and did not disconnect,
+    the backend is told -/
+def cleanup (s : BState) (c : ConnId) (x : BConn) : Res :=
+  let r : Res := match x.phase, x.will with
+    | .connected, some w =>
+      (match backendPublish s c w with
+       | .ok s' => .one s'
+       | .queueFull s' => .one s'         -- error is only logged
+       | .unsupported e => .unsupported e)
+    | _, _ => .one s
+  Res.bind r fun s => if x.phase ≠ .connecting then .one (backendTerminate s c) else .one s
+
 /-- `die` / `Close` followed by `cleanup`: the connection is closed, the will is published if
     the client had been accepted and did not disconnect, the backend is told. -/
 def kill (s : BState) (c : ConnId) : Res :=
@@ -273,15 +287,10 @@ def kill (s : BState) (c : ConnId) : Res :=
     if !x.alive then .one s else
     let alts := lastDequeue s c x
     Res.bind (.ok alts) fun s =>
-      let s := s.setConn c { x with alive := false, running := false }
-      let r : Res := match x.phase, x.will with
-        | .connected, some w =>
-          (match backendPublish s c w with
-           | .ok s' => .one s'
-           | .queueFull s' => .one s'         -- error is only logged
-           | .unsupported e => .unsupported e)
-        | _, _ => .one s
-      Res.bind r fun s => if x.phase ≠ .connecting then .one (backendTerminate s c) else .one s
+      if x.stalled then
+        -- closed, but its goroutines cannot finish: `cleanup` (will, Terminate) has to wait
+        .one (s.setConn c { x with alive := false, running := false, zombie := true })
+      else cleanup (s.setConn c { x with alive := false, running := false }) c x
 
 /-- run `backendPublish` for client `c`; `ErrQueueFull` kills the client -/
 def publishThen (s : BState) (c : ConnId) (m : Message) (k : BState → Res) : Res :=
@@ -352,6 +361,11 @@ def setupAndConnack (s : BState) (c : ConnId) (x : BConn) (id : ClientId) (clean
       | some oc => kill s oc
       | none => .one s
     Res.bind r fun s =>
+    -- the old connection did not finish dying within `KillTimeout`: `Setup` fails, the newcomer
+    -- is closed (it was already marked connected, so the backend is told about its termination)
+    if (match existing with
+        | some oc => (match s.conn? oc with | some ox => ox.zombie | none => false)
+        | none => false) then kill s c else
     if clean then
       let b := newSess c
       let s := { s with stored := Assoc.del s.stored id, temp := Assoc.set s.temp c b,
@@ -487,6 +501,8 @@ inductive Stim where
   | ackRelease                           -- the backend invokes all deferred acknowledgements
   | backendClose                         -- MemoryBackend.Close
   | tokenTimeout (c : ConnId)            -- the token timeout of a blocked dequeuer expires
+  | stall (c : ConnId)                   -- the connection's goroutines get stuck (from now on)
+  | unstall (c : ConnId)                 -- … and continue
 
 def killAll (s : BState) : List ConnId → Res
   | [] => .one s
@@ -503,6 +519,13 @@ def stim (s : BState) : Stim → Res
   | .backendClose =>
     let s := { s with closing := true }
     killAll s ((s.conns.filter (fun e => e.2.alive ∧ e.2.sref ≠ .none)).map (·.1))
+  | .stall c => .one (s.updConn c fun x => { x with stalled := true })
+  | .unstall c =>
+    (match s.conn? c with
+     | some x =>
+       if x.zombie then cleanup (s.setConn c { x with stalled := false, zombie := false }) c x
+       else .one (s.setConn c { x with stalled := false })
+     | none => .unsupported "unknown connection")
   | .tokenTimeout c =>
     match s.conn? c with
     | some x => if x.alive ∧ x.running ∧ !x.deqHand ∧ x.deqChan = 0 then kill s c else .unsupported "dequeuer not blocked"
